@@ -37,6 +37,9 @@ class G:
         self.locals_stack = []  # names bound in enclosing functions (for nonlocal)
         self.counter = 0
         self.flags = set(draw(st.sets(st.sampled_from(FLAGS), max_size=len(FLAGS))))
+        if profile == "clean":
+            # no construct with a recorded patchedast (C08) defect: used where the annotated tree is only a tool
+            self.flags -= {"nfkc_ident", "pep701", "starred", "tuple1", "annotations", "posonly", "kwonly", "pep695", "class_kw", "match", "fstrings", "walrus"}
 
     def i(self, a, b):
         return self.draw(st.integers(a, b))
@@ -327,7 +330,7 @@ class G:
         n = self.i(0, 3)
         for _ in range(n):
             items.append(self.expr(depth + 1))
-        if self.b(1, 5):
+        if self.b(1, 5) and (self.profile != "clean"):
             items.append("*" + self.ws() + self.operand(depth + 1))
         kws = ["k", "key", "sep", "x"]
         k0 = self.i(0, 3)
@@ -344,7 +347,7 @@ class G:
         return self.primary(depth + 1) + self.c(["", "", " "]) + "(" + self.arglist(depth) + ")"
 
     def slice_(self, depth):
-        r = self.i(0, 6)
+        r = self.i(0, 6) if self.profile != "clean" else self.i(0, 3)
         e = lambda: self.expr(depth + 2, noparen=False)  # noqa: E731
         if r <= 2:
             return e()
